@@ -57,6 +57,98 @@ def generate(wd, cfg, tag, **kw):
     return behs, sp, bp, r
 
 
+LAYOUT_ACTIONS = ["Append", "Remove", "Compact", "Rewind", "Reopen", "Subtree"]
+LAYOUT_PROBES = ["leafshift", "climb", "cleanup", "rewind"]
+
+
+def run_layout(rep, wd, thorough, replay_case=None):
+    """Physical layer (spec/PruneLayout.tla): the code-shaped prune list / shift caches / hash and data files /
+    leaf set refine 'leaves appended, removed, compacted away'; TLC checks the refinement exhaustively, the
+    behaviours it emits are executed on the real PMMRBackend and PruneList and every file and cache compared."""
+    def replay_layout(behs, tag, sabotage=None):
+        bp = os.path.join(wd, "layout_%s.ndjson" % tag)
+        outp = os.path.join(wd, "layout_out_%s.ndjson" % tag)
+        vlib.write_ndjson(bp, behs)
+        cmd = ["pmmrstore", "layout", "--behs", bp, "--dir", os.path.join(wd, "layout_dir_%s" % tag), "--out", outp, "--threads", 6]
+        if sabotage:
+            cmd += ["--sabotage", sabotage]
+        vlib.harness(cmd, timeout=3000)
+        res = vlib.read_ndjson(outp)
+        if len(res) != len(behs):
+            raise ToolError("layout replay output incomplete")
+        return res
+
+    if replay_case is not None:
+        for rr in replay_layout([replay_case["behaviour"]], "replay"):
+            for mm in rr["mismatches"][:1]:
+                rep.violation("pmmrstore:layout:%s:after=%s" % (mm["what"], mm["after"]), replay_case, json.dumps(mm)[:600])
+        return {}
+
+    # the invariants have teeth: each planted transcription error must violate Refinement
+    for m in LAYOUT_PROBES:
+        pr = vlib.tlc("mc/MC_PruneLayout", "mc/MC_PruneLayout_probe_" + m, workers=3, coverage=False, timeout=900)
+        if "Refinement" not in pr.invariant_violated:
+            print(pr.out[-2000:])
+            raise ToolError("PruneLayout probe '%s' did not violate Refinement: the invariant is vacuous there" % m)
+    states = trans = 0
+    if thorough:
+        r0 = vlib.tlc("mc/MC_PruneLayout", "mc/MC_PruneLayout_t", workers=8, coverage=False, timeout=3000)
+        if r0.invariant_violated:
+            print(r0.out[-3000:])
+            raise ToolError("PruneLayout.tla: Refinement violated inside the model (8 leaves): the transcription or the definition is wrong")
+        vlib.tlc_ok(r0, "MC_PruneLayout_t")
+        states, trans = r0.distinct, r0.generated
+    r = vlib.tlc("mc/MC_PruneLayout", "mc/MC_PruneLayout_emit_t" if thorough else "mc/MC_PruneLayout_emit", workers=6, coverage=False, timeout=3000)
+    if r.invariant_violated:
+        print(r.out[-3000:])
+        raise ToolError("PruneLayout.tla: Refinement violated inside the model: the transcription or the definition is wrong")
+    vlib.tlc_ok(r, "MC_PruneLayout_emit")
+    states, trans = states + r.distinct, trans + r.generated
+    bfs = [json.loads(x) for x in r.printed("BEH")]
+    rs = vlib.tlc("mc/MC_PruneLayout", "mc/MC_PruneLayout_sim", workers=1, coverage=False, timeout=3000,
+                  simulate=60 if thorough else 10, depth=50, seed_=vlib.seed())
+    if rs.invariant_violated:
+        print(rs.out[-3000:])
+        raise ToolError("PruneLayout.tla: Refinement violated inside the model (simulation, 14 leaves)")
+    seen, sim = set(), []
+    for x in rs.printed("BEH"):
+        if x not in seen:
+            seen.add(x)
+            sim.append(json.loads(x))
+    if len(bfs) < 200 or len(sim) < 5:
+        raise ToolError("too few layout behaviours: %d bfs, %d sim" % (len(bfs), len(sim)))
+    steps = {a: 0 for a in LAYOUT_ACTIONS}
+    rolled = 0
+    for b in bfs + sim:
+        for i, st in enumerate(b):
+            steps[st["k"]] += 1
+            if st["k"] in ("Compact", "Subtree") and i and len(st["p"]["bm"]) < len(b[i - 1]["p"]["bm"]):
+                rolled += 1          # roots rolled up into a parent: cleanup_subtree really ran
+    missing = [a for a, c in steps.items() if c == 0]
+    if missing or rolled == 0:
+        raise ToolError("layout behaviours never exercise %s (roll-ups %d)" % (missing, rolled))
+    checks = 0
+    nviol = {}
+    for tag, behs in (("bfs", bfs), ("sim", sim)):
+        for b, rr in zip(behs, replay_layout(behs, tag)):
+            checks += rr["checks"]
+            for mm in rr["mismatches"][:1]:
+                sig = "pmmrstore:layout:%s:after=%s" % (mm["what"], mm["after"])
+                nviol[sig] = nviol.get(sig, 0) + 1
+                if nviol[sig] == 1:
+                    rep.violation(sig, {"kind": "layout", "behaviour": b[:mm["step"] + 1], "mismatch": mm},
+                                  "step %s after %s: %s" % (mm["step"], mm["after"], json.dumps(mm)[:500]))
+    sab = replay_layout(bfs[:400], "sabotage", sabotage="skip_remove")
+    sab_bad = sum(1 for x in sab if x["mismatches"])
+    if sab_bad == 0:
+        raise ToolError("self-test: layout replay did not notice a skipped remove")
+    return {"config": "mc/MC_PruneLayout_emit" + ("_t + MC_PruneLayout_t" if thorough else ""), "states": states, "transitions": trans,
+            "probes_violating_refinement": LAYOUT_PROBES, "behaviours_bfs": len(bfs), "behaviours_sim": len(sim),
+            "sim_states_checked_in_model": rs.generated, "replayed_steps_by_action": steps, "root_rollups": rolled,
+            "file_and_cache_comparisons": checks, "violating_behaviours_by_signature": nviol, "selftest_sabotage_noticed_in": sab_bad,
+            "sample": bfs[len(bfs) // 2]}
+
+
 def run(tier, replay):
     rep = Report(PID, tier, "model_checking")
     wd = vlib.workdir(PID, clean=True)
@@ -65,7 +157,9 @@ def run(tier, replay):
     if replay:
         obj = json.load(open(replay))
         case = obj["case"]
-        if case.get("kind") == "trace":
+        if case.get("kind") == "layout":
+            run_layout(rep, wd, thorough, replay_case=case)
+        elif case.get("kind") == "trace":
             ok, info = validate_trace(case["trace"], "replay")
             if not ok:
                 rep.violation(obj["signature"], case, str(info))
@@ -102,6 +196,9 @@ def run(tier, replay):
         print(r2.out[-3000:])
         raise ToolError("PMMRStore.tla observables inconsistent inside the model (%s)" % (r2.invariant_violated,))
     vlib.tlc_ok(r2, "MC_PMMRStore_obs")
+
+    # physical layer: PruneLayout.tla refines the reference; its behaviours run on the real backend and prune list
+    layout = run_layout(rep, wd, thorough)
 
     # (A) behaviours from the specification, replayed on the real PMMRBackend
     sets = []
@@ -229,11 +326,12 @@ def run(tier, replay):
         raise ToolError("no generated behaviour contains an effective compaction")
 
     rep.coverage = {
-        "states": states, "transitions": trans,
+        "states": states + layout["states"], "transitions": trans + layout["transitions"],
+        "physical_layout": layout,
         "chain_level_compaction_reorg": chain_level,
         "chain_model_compaction": {"config": "mc/MC_Chain_simemit_compact", "behaviours": len(cbehs), "with_effective_compaction": compact_effective,
                                    "steps": cstats["steps"], "twin_root_comparisons": cstats["twin_checked"], "step_classes": cstats["classes"]},
-        "traces_validated_against_impl": replayed + len(traces) + len(cbehs),
+        "traces_validated_against_impl": replayed + len(traces) + len(cbehs) + layout["behaviours_bfs"] + layout["behaviours_sim"],
         "samples": [{"behaviour": sets[0][1][len(sets[0][1]) // 2]},
                     {"sim_behaviour_head": sets[1][1][0][:12]},
                     {"trace": traces[0]}],
@@ -246,9 +344,10 @@ def run(tier, replay):
         "max_leaves_in_behaviours": max_leaves,
         "selftest_sabotage_noticed_in": sab_bad, "violating_behaviours_by_signature": nviol,
         "recorded_traces": traces,
-        "checker_cmd": "tlc mc/MC_PMMRStore; tlc mc/MC_PMMRStoreGen (bfs+simulate); h_pmmrstore replay; h_pmmrstore record; tlc trace/PMMRStoreTrace",
+        "checker_cmd": "tlc mc/MC_PruneLayout (probes, exhaustive, emit, simulate); h_pmmrstore layout; tlc mc/MC_PMMRStore; tlc mc/MC_PMMRStoreGen (bfs+simulate); h_pmmrstore replay; h_pmmrstore record; tlc trace/PMMRStoreTrace",
     }
     rep.assumptions = [
+        "physical layer: PruneLayout.tla transcribes prune_list.rs, LeafSet::removed_pre_cutoff/rewind, PMMRBackend::append/append_pruned_subtree/remove/rewind/pos_to_rm/check_compact and write_tmp_pruned statement by statement; bitmap rank/select/maximum are spelled out on sets; exhaustive to 6 (thorough 8) leaves, simulated to 14; file records are identified by the bytes first written for a position",
         "usage protocol as in chain/src/txhashset/txhashset.rs: rewind only to boundaries not older than the last compaction, only before any append/remove of the unit; bitmaps hold 1-based positions; check_compact only between units",
         "blake2b / hash_with_index used as an injective primitive (symbolic terms in the model, evaluated by the harness)",
         "MMR shape (positions, root and proof-path terms) from MMR.tla's construction (C07); the harness substitutes each leaf's data into the emitted shape terms",
